@@ -932,6 +932,44 @@ func (e *Extractor) clauseBlock(info *types.Info, snap map[types.Object]int64, s
 	return e.block(info, stmts)
 }
 
+// countDown recognises `for [v := e]; v > 0; v--` (also `v != 0`, `0 < v`) and
+// returns the expression whose value is the trip count.
+func countDown(info *types.Info, x *ast.ForStmt) (ast.Expr, bool) {
+	dec, ok := x.Post.(*ast.IncDecStmt)
+	if !ok || dec.Tok != token.DEC {
+		return nil, false
+	}
+	v, ok := ast.Unparen(dec.X).(*ast.Ident)
+	if !ok {
+		return nil, false
+	}
+	be, ok := ast.Unparen(x.Cond).(*ast.BinaryExpr)
+	if !ok {
+		return nil, false
+	}
+	same := func(e ast.Expr) bool {
+		id, ok := ast.Unparen(e).(*ast.Ident)
+		return ok && info.Uses[id] == info.Uses[v]
+	}
+	zero := func(e ast.Expr) bool {
+		k, ok := core.IntConst(info, e)
+		return ok && k == 0
+	}
+	okCond := (be.Op == token.GTR || be.Op == token.NEQ) && same(be.X) && zero(be.Y) || (be.Op == token.LSS || be.Op == token.NEQ) && zero(be.X) && same(be.Y)
+	if !okCond {
+		return nil, false
+	}
+	if x.Init == nil {
+		return v, true
+	}
+	if as, ok := x.Init.(*ast.AssignStmt); ok && len(as.Lhs) == 1 && len(as.Rhs) == 1 {
+		if id, ok := as.Lhs[0].(*ast.Ident); ok && id.Name == v.Name {
+			return as.Rhs[0], true
+		}
+	}
+	return nil, false
+}
+
 func startsAtZero(info *types.Info, init ast.Stmt) bool {
 	as, ok := init.(*ast.AssignStmt)
 	if !ok || len(as.Rhs) != 1 {
@@ -1170,6 +1208,22 @@ func (e *Extractor) stmt1(info *types.Info, s ast.Stmt) *node {
 			e.undec("%s: stream consumed inside a loop condition", e.C.Pos(x.Pos()))
 		}
 		if x.Cond != nil && x.Post != nil {
+			// count-down form: `for ; v > 0; v--` runs v times
+			if v, ok := countDown(info, x); ok {
+				if k, isK := e.intValue(info, v); isK && k >= 0 && k <= 8 {
+					for j := int64(1); j < k; j++ {
+						out.kids = append(out.kids, e.block(info, x.Body.List))
+					}
+					if k > 0 {
+						out.kids = append(out.kids, body)
+					}
+					return out
+				}
+				if ref, ok := e.refOf(info, v); ok {
+					out.kids = append(out.kids, &node{kind: "loop", text: ref, kids: []*node{body}})
+					return out
+				}
+			}
 			if be, ok := ast.Unparen(x.Cond).(*ast.BinaryExpr); ok && be.Op == token.LSS {
 				if _, isInc := x.Post.(*ast.IncDecStmt); isInc {
 					// `for i := 0; i < K; i++` with a small constant K is K copies of the body
